@@ -163,6 +163,7 @@ structure Resv where
   writer : Nat := 0            -- caller whose response writer FastInvoke attached
   replyStream : Bool := false
   replySent   : Bool := false
+  resetStarted : Bool := false  -- Reset() has begun tearing this reservation down
 deriving DecidableEq, Repr
 
 /-- an HTTP call of an actor the harness still waits for -/
